@@ -1,0 +1,46 @@
+//go:build verif
+
+package agent
+
+import (
+	"log/slog"
+
+	"github.com/postalsys/muti-metroo/internal/identity"
+	"github.com/postalsys/muti-metroo/internal/peer"
+	"github.com/postalsys/muti-metroo/internal/routing"
+)
+
+// Add-only accessors for the verification harness (property C32).
+
+// VerifPeerfamManager exposes the agent's peer manager (wired to the agent's
+// real connect / disconnect / frame callbacks by initComponents).
+func (a *Agent) VerifPeerfamManager() *peer.Manager { return a.peerMgr }
+
+// VerifPeerfamRouteManager exposes the agent's routing manager.
+func (a *Agent) VerifPeerfamRouteManager() *routing.Manager { return a.routeMgr }
+
+// VerifPeerfamSetLogger replaces the agent's own logger (the harness counts
+// the "peer disconnected" records written by handlePeerDisconnect).
+func (a *Agent) VerifPeerfamSetLogger(l *slog.Logger) { a.logger = l }
+
+// VerifPeerfamRelayInsert records a transit TCP stream between two peers.
+func (a *Agent) VerifPeerfamRelayInsert(up identity.AgentID, upID uint64, down identity.AgentID, downID uint64) {
+	a.tcpRelay.Insert(&relayEntry{UpstreamPeer: up, UpstreamID: upID, DownstreamPeer: down, DownstreamID: downID})
+}
+
+// VerifPeerfamRelayCount counts the transit TCP streams that involve peer p.
+func (a *Agent) VerifPeerfamRelayCount(p identity.AgentID) int {
+	a.tcpRelay.mu.RLock()
+	defer a.tcpRelay.mu.RUnlock()
+	n := 0
+	for _, e := range a.tcpRelay.byUpstream {
+		if e.UpstreamPeer == p || e.DownstreamPeer == p {
+			n++
+		}
+	}
+	return n
+}
+
+// VerifPeerfamWireFrames installs the agent's frame dispatcher on the peer
+// manager exactly as Start does, without starting listeners or servers.
+func (a *Agent) VerifPeerfamWireFrames() { a.peerMgr.SetFrameCallback(a.processFrame) }
